@@ -85,9 +85,21 @@ def san(s):
     return s.strip('_')
 
 
+C_SOURCE_FUNCS = {n: 'support/MuscleSupport.h' for n in ('B_REINTERPRET_FLOAT_AS_INT32', 'B_REINTERPRET_INT32_AS_FLOAT',
+                                                       'B_REINTERPRET_DOUBLE_AS_INT64', 'B_REINTERPRET_INT64_AS_DOUBLE')}
+
+
+def c_source_line(repo, relpath, name):
+    hits = [l for l in open(os.path.join(repo, relpath)) if re.search(r'static inline \w+\s+%s\(' % re.escape(name), l) and l.rstrip().endswith('}')]
+    if len(hits) != 1:
+        raise Unsupported('C definition of %s not found as a one-line static inline in %s' % (name, relpath))
+    return '#line 1 "%s"\n' % os.path.join(repo, relpath) + hits[0]
+
+
 class Lowerer:
     def __init__(self, docs, follow=None, opaque_records=(), stub_records=None, extra_noop=(), rename=None, memberwise=()):
         self.docs = docs
+        self.repo = os.environ.get('MV_REPO', '/repo')
         self.byid = {}
         self.parent = {}
         self.defn = {}          # canonical decl id -> node with body
@@ -117,6 +129,7 @@ class Lowerer:
         self.static_locals = []
         self.edges = {}
         self.blobs = []
+        self.c_extracted = {}
         self.gedges = {}
         self.cur_name = None
         for d in docs:
@@ -504,6 +517,11 @@ class Lowerer:
         nm = self.fname(d)
         if getattr(self, 'cur_name', None):
             self.edges.setdefault(self.cur_name, set()).add(nm)
+        if d.get('name') in C_SOURCE_FUNCS and self.body_of(d) is None:
+            # a C function of the C-compatible part of MuscleSupport.h (outside namespace muscle, so not in the
+            # filtered AST): its one-line definition is copied verbatim from the real header (Route C)
+            self.c_extracted.setdefault(d['name'], C_SOURCE_FUNCS[d['name']])
+            return d['name']
         if d.get('name') in C_PASSTHROUGH_CALLS and not self.is_method(d):
             return d['name']
         fid = d['id']
@@ -1383,6 +1401,10 @@ class Lowerer:
             out.append('%s;' % ct)
         for nm, p in self.externs.items():
             out.append(p)
+        if self.c_extracted:
+            out.append('#define MUSCLE_NODISCARD\ntypedef unsigned int uint32; typedef unsigned long uint64; typedef int int32; typedef long int64;')
+            for nm, rel in sorted(self.c_extracted.items()):
+                out.append(c_source_line(self.repo, rel, nm))
         for fid in self.order:
             out.append(self.protos[fid])
         self.alias_defines()
@@ -1422,6 +1444,9 @@ def find_functions(L, record=None, names=None, qualnames=None, pred=None):
             continue
         if pred is not None and not pred(n):
             continue
-        # skip templates patterns (dependent): they have TemplateTypeParm in type
+        # skip uninstantiated template patterns (dependent types)
+        par = L.parent.get(n.get('id'))
+        if par is not None and par.get('kind') == 'FunctionTemplateDecl' and not any(c.get('kind') == 'TemplateArgument' for c in n.get('inner', []) or []):
+            continue
         res.append(n)
     return res
